@@ -41,7 +41,9 @@ TraceOp ==
   /\ LET e == Trace[l] IN
      Rec(Cl(e.op \in {"package", "named"} => e.hash = e.fresh, "C11.out_equals_fresh")
          \cup Cl(e.nchanged = 0, "C11.config_unchanged")
-         \cup Cl(e.get_changed = <<>>, "C11.effective_settings_unchanged"),
+         \cup Cl(e.get_changed = <<>>, "C11.effective_settings_unchanged")
+         \* C15: asking for the conventional file name does not alter the package subsequently built from the same Info
+         \cup Cl(e.op = "named" => e.hash = e.fresh, "C15.asking_for_name_does_not_alter_package"),
          {}, {})
   /\ UNCHANGED <<cid, ncases>>
 
